@@ -243,13 +243,6 @@ def rewrite(toks, rules, hits, extra=None):
             nxt.gap = t.gap
             i += 1
             continue
-        # R4 unsafe marker
-        if t.kind == 'id' and t.text == 'unsafe':
-            hit('R4_unsafe_marker_dropped')
-            if nxt is not None:
-                nxt.gap = t.gap
-            i += 1
-            continue
         # R10 const qualifier on fn, pub(..) -> pub
         if t.kind == 'id' and t.text == 'const' and nxt is not None and nxt.text in ('fn', 'unsafe'):
             hit('R10_const_fn_qualifier_dropped')
@@ -347,7 +340,7 @@ def parse_vspec(path):
         if m:
             kw, arg = m.group(1), m.group(2).strip()
             if kw == 'fn':
-                cur = specs.setdefault(arg, dict(sig='', loops={}, before=[], top='', attr=''))
+                cur = specs.setdefault(arg, dict(sig='', loops={}, before=[], after=[], top='', attr=''))
                 sec = None
             elif kw == 'sig':
                 sec = ('sig',)
@@ -361,6 +354,9 @@ def parse_vspec(path):
             elif kw == 'before':
                 cur['before'].append([arg, ''])
                 sec = ('before', len(cur['before']) - 1)
+            elif kw == 'after':
+                cur['after'].append([arg, ''])
+                sec = ('after', len(cur['after']) - 1)
             elif kw == 'end':
                 sec = None
             continue
@@ -376,6 +372,8 @@ def parse_vspec(path):
             cur['loops'][sec[1]] += line + '\n'
         elif sec[0] == 'before':
             cur['before'][sec[1]][1] += line + '\n'
+        elif sec[0] == 'after':
+            cur['after'][sec[1]][1] += line + '\n'
     return specs
 
 
@@ -436,6 +434,28 @@ def splice(toks, body, spec):
         if pos is None:
             raise ExtractError('contract anchor lost: no statement starts with %r' % prefix)
         inserts.append((pos, _chunk(text)))
+    for prefix, text in spec.get('after', []):
+        ptoks = [x[1] for x in lex(prefix)]
+        pos = None
+        for j in range(body + 1, len(out) - len(ptoks) + 1):
+            prev = out[j - 1].text
+            if prev in (';', '{', '}') and [x.text for x in out[j:j + len(ptoks)]] == ptoks:
+                pos = j
+                break
+        if pos is None:
+            raise ExtractError('contract anchor lost: no statement starts with %r' % prefix)
+        depth = 0
+        k = pos
+        while k < len(out):
+            x = out[k]
+            if x.kind == 'punct' and x.text in OPEN:
+                depth += 1
+            elif x.kind == 'punct' and x.text in ')]}':
+                depth -= 1
+            elif x.kind == 'punct' and x.text == ';' and depth == 0:
+                break
+            k += 1
+        inserts.append((k + 1, _chunk(text)))
     for idx, ch in sorted(inserts, key=lambda p: -p[0]):
         out.insert(idx, ch)
     return out
